@@ -71,8 +71,10 @@ void SelectLoop::runLoop(Mode mode)
                 bool is_except   = FD_ISSET(fd, &except_set);
 
                 if (is_readable || is_writable || is_except) {
-                    auto *data = fd_data_map_.at(fd);
-                    SelectFdEvent::OnEventCallback(is_readable, is_writable, is_except, data);
+                    //! the last event of this fd may have been deleted by a callback served earlier in this pass
+                    auto iter = fd_data_map_.find(fd);
+                    if (iter != fd_data_map_.end())
+                        SelectFdEvent::OnEventCallback(is_readable, is_writable, is_except, iter->second);
                 }
             }
         } else if (select_ret == -1) {
